@@ -1,7 +1,7 @@
 (** Dictionary algebra of the glyph lib: dump_object_libs, recursive key sorting, the read-back
     of a written property list, load_object_libs. *)
 Require Import Norad.Model.GlifSpec Norad.Model.GlifEncode.
-Require Import Norad.Proofs.GlifParseP Norad.Proofs.GlifSpecP Norad.Proofs.GlifEncodeP.
+Require Import Norad.Proofs.GlifParseP Norad.Proofs.GlifSpecP Norad.Proofs.GlifEncodeP Norad.Proofs.Base64P.
 Open Scope N_scope.
 
 (* ---------- association lists ---------- *)
@@ -89,9 +89,6 @@ Section ReadBack.
   (** L1: the library readers invert the library writers *)
   Hypothesis H_ff : forall x, fl_finite x = true -> pf (ff x) = Some x.
   Hypothesis H_fi : forall z, int_ok z = true -> plist_int (fi z) = Some z.
-  Hypothesis H_b64 : forall b, bytes_ok b = true ->
-    let t := filter (fun c => negb (is_ascii_ws c)) (b64_encode b) in
-    b64_decode (S (List.length t)) t = Some b.
 
   Let W := o_count o.
 
@@ -147,7 +144,7 @@ Section ReadBack.
     - destruct x; try discriminate. cbn [pv_of]. names. unfold leaf_value. names. cbn [content].
       rewrite app_nil_r, H_ff by reflexivity. reflexivity.
     - destruct b; cbn [pv_of]; names; reflexivity.
-    - cbn [pv_of]. names. unfold leaf_value. names. rewrite content_text. rewrite (H_b64 b H). reflexivity.
+    - cbn [pv_of]. names. unfold leaf_value. names. rewrite content_text. rewrite (b64_read_back b H). reflexivity.
     - cbn [pv_of]. names. unfold leaf_value. names. cbn [content]. rewrite app_nil_r, H. reflexivity.
     - destruct l as [|v l]; [cbn [pv_of]; names; reflexivity|]. cbn [pv_of]. names.
       assert (A : forall l0, forallb (pv_good W) l0 = true ->
